@@ -17,6 +17,8 @@ import (
 	abci "github.com/tendermint/tendermint/abci/types"
 	tmproto "github.com/tendermint/tendermint/proto/tendermint/types"
 	dbm "github.com/tendermint/tm-db"
+
+	storagetypes "github.com/jackalLabs/canine-chain/v4/x/storage/types"
 )
 
 // Oracle is the per-property judge. All methods may call w.Violate.
@@ -99,6 +101,10 @@ type World struct {
 	maxViol  int
 	violCount map[string]int
 	tainted  map[string]bool
+	stateVer   uint64 // bumped whenever chain state may have changed (invalidates read caches)
+	spCache    storagetypes.Params
+	spCacheVer uint64
+	spCacheOK  bool
 	blockPreAnteFail bool
 	nBlocks  int
 	// scratch for oracles/generators
@@ -139,6 +145,8 @@ func (w *World) State(fp string) {
 func (w *World) Ctx() sdk.Context {
 	return w.ctxOf(w.node())
 }
+
+func (w *World) touch() { w.stateVer++ }
 
 func (w *World) ctxOf(n *Node) sdk.Context {
 	if w.live {
@@ -297,6 +305,7 @@ func (w *World) BeginBlock(dt time.Duration) bool {
 	w.journal = nil
 	w.blkHash = nil
 	w.oracle.BeforeBegin(w)
+	w.touch()
 	var res0 abci.ResponseBeginBlock
 	for i, n := range w.nodes {
 		var res abci.ResponseBeginBlock
@@ -318,6 +327,7 @@ func (w *World) BeginBlock(dt time.Duration) bool {
 }
 
 func (w *World) Deliver(bz []byte) *abci.ResponseDeliverTx {
+	w.touch()
 	var res0 abci.ResponseDeliverTx
 	for i, n := range w.nodes {
 		var res abci.ResponseDeliverTx
@@ -361,6 +371,7 @@ func (w *World) Deliver(bz []byte) *abci.ResponseDeliverTx {
 }
 
 func (w *World) EndBlockCommit() bool {
+	w.touch()
 	var e0 string
 	for i, n := range w.nodes {
 		var res abci.ResponseEndBlock
@@ -404,6 +415,7 @@ func (w *World) EndBlockCommit() bool {
 	w.inBlock = false
 	w.live = false
 	w.committed = true
+	w.touch()
 	w.trace = append(w.trace, fmt.Sprintf("h=%d app=%s r=%s", w.height, hex.EncodeToString(w.lastAppHash)[:16], hashHex(w.blkHash...)))
 	w.res.Blocks++
 	return true
@@ -423,6 +435,7 @@ func (w *World) crashRestart(i int) {
 	}
 	n := newNode(name, old.db, "", w.cfg.InvCheckPeriod)
 	w.nodes[i] = n
+	w.touch()
 	if !w.committed {
 		n.app.InitChain(w.initReq)
 	}
